@@ -36,6 +36,11 @@ pub struct CrashStats {
     pub pending_total: u64,
     pub post_workloads: u64,
     pub distinct_images: u64,
+    pub corrupt_reported_at_open: u64,
+    pub corrupt_reported_by_integrity_err: u64,
+    pub corrupt_reported_by_panic: u64,
+    pub corrupt_repaired_ok_false: u64,
+    pub corrupt_harmless_ok_true: u64,
 }
 
 /// The allowed-version sets along a lifetime's log: allowed_at[k] = admissible versions for a
